@@ -275,7 +275,7 @@ def check(ctx):
 
     def leaf(st):
         return st['phase'] == 'done'
-    n1 = mc_and_replay(ctx, 'measure', cfg(seed, 53 if quick else 5, 4), spec=SPEC, handlers=HANDLERS, leaf=leaf, sample_every=50)
+    n1 = mc_and_replay(ctx, 'measure', cfg(seed, 31 if quick else 5, 4), spec=SPEC, handlers=HANDLERS, leaf=leaf, sample_every=50)
     ctx.notes['behaviours'] = dict(measure=n1)
     ctx.notes['replay_wall_s'] = round(time.time() - t0, 1)
 
